@@ -252,12 +252,16 @@ func FindAllBuildFiles(config *core.Configuration, rootPath, prefix string) <-ch
 		}
 		if err := fs.Walk(rootPath, func(name string, isDir bool) error {
 			basename := filepath.Base(name)
-			if basename == core.OutDir || (isDir && strings.HasPrefix(basename, ".") && name != ".") {
+			if !isDir {
+				if config.IsABuildFile(basename) {
+					ch <- name
+				}
+				// Never return SkipDir for a file, whatever it's called; that would skip the rest of the directory it's in.
+				return nil
+			} else if basename == core.OutDir || (strings.HasPrefix(basename, ".") && name != ".") {
 				return filepath.SkipDir // Don't walk output or hidden directories
-			} else if isDir && !strings.HasPrefix(name, prefix) && !strings.HasPrefix(prefix, name) {
+			} else if !strings.HasPrefix(name, prefix) && !strings.HasPrefix(prefix, name) {
 				return filepath.SkipDir // Skip any directory without the prefix we're after (but not any directory beneath that)
-			} else if config.IsABuildFile(basename) && !isDir {
-				ch <- name
 			} else if cli.ContainsString(name, config.Parse.ExperimentalDir) {
 				return filepath.SkipDir // Skip the experimental directory if it's set
 			}
